@@ -2791,7 +2791,9 @@ def run(ck):
         "sorted / two-valued (n 5..7 quick, ..13 thorough) x ratios {j/(4n), j/8, 0, 1} x interp x strides {1,-1,2,-3} through the C "
         "function itself; n-d integer arrays (1..4 dims, extents 1..7, C/F order, negative and non-unit steps, int64 and strided "
         "float64) x every axis x 7 ratios + median through the Python wrappers; a case is distinct by (data, stride/layout, axis, "
-        "ratio, interp) and non-trivial when the sample has more than one element.  blas / spline / oracles: see sections.")
+        "ratio, interp) and non-trivial when the sample has more than one element.  blas1: integer * 2^k vectors, k in [-1000, 1000] (ordinary / squares-overflow / squares-underflow / mixed-exponent / zero "
+        "classes) x steps 1..3 x 10 level-1 routines through C and Python wrappers, exact rational reference.  bindings oracles: every "
+        "integer dtype, small values and (32/64-bit types) magnitudes 2^31 .. 2^52.  blas / spline / oracles: see sections.")
     _timed(ck, "coq_build", lambda c: c.coq_build())
     _timed(ck, "overlay", lambda c: c.overlay(cstat=True))
     # load every binary now: concurrent checks prune old overlay directories, a loaded library stays usable
@@ -2801,7 +2803,8 @@ def run(ck):
     import nipy.algorithms.registration._registration       # noqa
     import nipy.labs.bindings.linalg, nipy.labs.bindings.array, nipy.labs.bindings.wrapper   # noqa
     ck.trust.append("ctypes call of the exported C symbol `quantile` in the rebuilt _quantile extension (argument marshalling in harness/props/c16.py)")
-    ck.assume.append("sample values are integers of small magnitude (exactly representable doubles); NaN / inf inputs are outside the model")
+    ck.assume.append("quantile / BLAS level-2,3 / spline correspondences use integers of small magnitude (every double operation exact); "
+                     "level-1 BLAS and the bindings oracles cover magnitudes 2^-1000..2^1000 resp. up to 2^52; NaN / inf inputs are outside the models")
     quantile_section(ck)
     for name in ("blas", "blas1", "spline", "oracles"):
         fn = globals().get(name)
